@@ -6,6 +6,7 @@ import DimModel.Gen.TableC04
 import DimModel.Props.C06
 import DimModel.Proofs.C04
 import DimModel.Proofs.C04General
+import DimModel.Proofs.C04Vals
 namespace DimModel
 open Lib
 
@@ -684,5 +685,138 @@ theorem operation_comma_name_counterexample : operation (-1) (· + ·) exOpComma
     rfl
   rw [operation_eq, t1, ex_bind_ok, t4]
   rfl
+
+/-! ## What the operator computes in a cell (concrete float cells, `Lib/OpVals.lean`)
+
+The statement says "NaN elsewhere".  `operation` fills the operand that lacks a coordinate with NaN and applies the ufunc, so
+the sentence holds exactly for the operators that are NaN-ABSORBING (`NanAbsorbing`, Proofs/C04Vals.lean): `+ - * / //`
+(`add_nanAbsorbing` ... `floordiv_nanAbsorbing`), and fails for `**` (`pow_not_nanAbsorbing`: IEEE 1 ** NaN = 1, NaN ** 0 = 1,
+the open finding K01), with the exact characterisation `pow_nan_right_iff` / `pow_nan_left_iff`.  The comparisons are not
+aligned at all by the library (`compareNd`); inside a cell they are False at a NaN, `!=` True (`cmpX_nan`).
+`operation_cell_spec` instantiates `operation_general_spec` on float cells; `operation_missing_is_nan` is the end-to-end
+sentence of the property; `operation_pow_missing_not_nan` shows that its hypothesis is needed. -/
+
+theorem add_nanAbsorbing : NanAbsorbing XVal.add := fun x => ⟨XVal.add_nan_left x, XVal.add_nan_right x⟩
+theorem sub_nanAbsorbing : NanAbsorbing XVal.sub := fun x =>
+  ⟨XVal.add_nan_left _, by show XVal.add x (XVal.neg .nan) = .nan; exact XVal.add_nan_right x⟩
+theorem mul_nanAbsorbing : NanAbsorbing XVal.mul := fun x => ⟨XVal.mul_nan_left x, XVal.mul_nan_right x⟩
+theorem truediv_nanAbsorbing : NanAbsorbing XVal.div := fun x => ⟨XVal.div_nan_left x, XVal.div_nan_right x⟩
+theorem floordiv_nanAbsorbing : NanAbsorbing XVal.floordiv := fun x =>
+  ⟨XVal.floordiv_nan_left x, XVal.floordiv_nan_right x⟩
+
+/-- x ** NaN is NaN exactly when x is not 1 -/
+theorem pow_nan_right_iff (x : XVal) : XVal.pow x .nan = .nan ↔ x ≠ .fin 1 := by
+  constructor
+  · intro h hx
+    rw [hx, XVal.one_pow] at h
+    exact XVal.noConfusion h
+  · exact XVal.pow_nan_right_of_ne x
+
+/-- NaN ** y is NaN exactly when y is not 0 -/
+theorem pow_nan_left_iff (y : XVal) : XVal.pow .nan y = .nan ↔ y ≠ .fin 0 := by
+  constructor
+  · intro h hy
+    rw [hy, XVal.pow_zero] at h
+    exact XVal.noConfusion h
+  · exact XVal.pow_nan_left_of_ne y
+
+/-- K01 as a theorem about the model: `**` is not NaN-absorbing (1 ** NaN = 1) -/
+theorem pow_not_nanAbsorbing : ¬ NanAbsorbing XVal.pow := by
+  intro h
+  have := (h (.fin 1)).2
+  rw [XVal.one_pow] at this
+  exact XVal.noConfusion this
+
+/-- of the six operators of the table, exactly `**` is not NaN-absorbing -/
+theorem opX_nanAbsorbing_iff (o : Op) : NanAbsorbing (opX o) ↔ o ≠ .pow := by
+  cases o
+  · exact ⟨fun _ => by decide, fun _ => add_nanAbsorbing⟩
+  · exact ⟨fun _ => by decide, fun _ => sub_nanAbsorbing⟩
+  · exact ⟨fun _ => by decide, fun _ => mul_nanAbsorbing⟩
+  · exact ⟨fun _ => by decide, fun _ => truediv_nanAbsorbing⟩
+  · exact ⟨fun _ => by decide, fun _ => floordiv_nanAbsorbing⟩
+  · exact ⟨fun h => absurd h pow_not_nanAbsorbing, fun h => absurd rfl h⟩
+
+/-- a comparison with a NaN operand is False, `!=` is True (a Boolean, never NaN) -/
+theorem cmpX_nan (c : Cmp) (x : XVal) :
+    cmpX c .nan x = (c == .ne) ∧ cmpX c x .nan = (c == .ne) := by
+  cases c <;> cases x <;> exact ⟨rfl, rfl⟩
+
+/-- the labels of the result restricted to the dimensions of the operand `a`, in `a`'s order -/
+def opLabels {α : Type} (a r : DimArray α) : List (List Label) :=
+  restrictTo a.dims r.dims (r.axes.map (·.labels)) []
+/-- the index `j` of the result restricted to the dimensions of the operand `a` -/
+def opIdx {α : Type} (a r : DimArray α) (j : List Nat) : List Nat := restrictTo a.dims r.dims j 0
+
+/-- EVERY CELL, for any cell function: `f` of the operands' cells at the labels of the coordinate, an operand that lacks
+one of the labels on its axes (`MissingAt`) contributing NaN -/
+theorem operation_cell_spec (f : XVal → XVal → XVal) (a b r : DimArray XVal) (k1 k2 : Kind)
+    (ha : AlignInput a) (hb : AlignInput b)
+    (hca : ∀ d ∈ a.dims, ',' ∉ d.toList) (hcb : ∀ d ∈ b.dims, ',' ∉ d.toList)
+    (h : operation XVal.nan f a b = .ok (r, k1, k2)) (j : List Nat) (hj : InRange r.vals.shape j) :
+    (¬ MissingAt a (opLabels a r) (opIdx a r j) → ¬ MissingAt b (opLabels b r) (opIdx b r j) →
+      r.vals.get j = f (cellAt a (opLabels a r) (opIdx a r j)) (cellAt b (opLabels b r) (opIdx b r j))) ∧
+    (MissingAt a (opLabels a r) (opIdx a r j) → ¬ MissingAt b (opLabels b r) (opIdx b r j) →
+      r.vals.get j = f .nan (cellAt b (opLabels b r) (opIdx b r j))) ∧
+    (¬ MissingAt a (opLabels a r) (opIdx a r j) → MissingAt b (opLabels b r) (opIdx b r j) →
+      r.vals.get j = f (cellAt a (opLabels a r) (opIdx a r j)) .nan) ∧
+    (MissingAt a (opLabels a r) (opIdx a r j) → MissingAt b (opLabels b r) (opIdx b r j) →
+      r.vals.get j = f .nan .nan) := by
+  obtain ⟨_, _, _, _, hval⟩ := operation_general_spec XVal.nan f a b r k1 k2 ha hb hca hcb h
+  have hv := hval j hj
+  refine ⟨fun h1 h2 => ?_, fun h1 h2 => ?_, fun h1 h2 => ?_, fun h1 h2 => ?_⟩
+  · rw [hv]; unfold opLabels opIdx at *
+    rw [alignVals_get_present a _ _ _ h1, alignVals_get_present b _ _ _ h2]
+  · rw [hv]; unfold opLabels opIdx at *
+    rw [alignVals_get_missing a _ _ _ h1, alignVals_get_present b _ _ _ h2]
+  · rw [hv]; unfold opLabels opIdx at *
+    rw [alignVals_get_present a _ _ _ h1, alignVals_get_missing b _ _ _ h2]
+  · rw [hv]; unfold opLabels opIdx at *
+    rw [alignVals_get_missing a _ _ _ h1, alignVals_get_missing b _ _ _ h2]
+
+/-- THE SENTENCE OF THE PROPERTY, END TO END: for a NaN-absorbing operator (`+ - * / //`), every cell of `a op b` whose
+coordinate is missing from one operand (a label of the coordinate is not on that operand's axis) is NaN, and every other cell
+is `f (a at the labels) (b at the labels)` -/
+theorem operation_missing_is_nan (f : XVal → XVal → XVal) (hf : NanAbsorbing f) (a b r : DimArray XVal) (k1 k2 : Kind)
+    (ha : AlignInput a) (hb : AlignInput b)
+    (hca : ∀ d ∈ a.dims, ',' ∉ d.toList) (hcb : ∀ d ∈ b.dims, ',' ∉ d.toList)
+    (h : operation XVal.nan f a b = .ok (r, k1, k2)) (j : List Nat) (hj : InRange r.vals.shape j) :
+    (MissingAt a (opLabels a r) (opIdx a r j) ∨ MissingAt b (opLabels b r) (opIdx b r j) → r.vals.get j = .nan) ∧
+    (¬ MissingAt a (opLabels a r) (opIdx a r j) → ¬ MissingAt b (opLabels b r) (opIdx b r j) →
+      r.vals.get j = f (cellAt a (opLabels a r) (opIdx a r j)) (cellAt b (opLabels b r) (opIdx b r j))) := by
+  obtain ⟨h00, h10, h01, h11⟩ := operation_cell_spec f a b r k1 k2 ha hb hca hcb h j hj
+  refine ⟨fun hm => ?_, h00⟩
+  by_cases h1 : MissingAt a (opLabels a r) (opIdx a r j) <;> by_cases h2 : MissingAt b (opLabels b r) (opIdx b r j)
+  · rw [h11 h1 h2]; exact (hf _).1
+  · rw [h10 h1 h2]; exact (hf _).1
+  · rw [h01 h1 h2]; exact (hf _).2
+  · exact absurd hm (by simp [h1, h2])
+
+/-- the six operators: the sentence holds for the five NaN-absorbing ones -/
+theorem operation_missing_is_nan_op (o : Op) (ho : o ≠ .pow) (a b r : DimArray XVal) (k1 k2 : Kind)
+    (ha : AlignInput a) (hb : AlignInput b)
+    (hca : ∀ d ∈ a.dims, ',' ∉ d.toList) (hcb : ∀ d ∈ b.dims, ',' ∉ d.toList)
+    (h : operation XVal.nan (opX o) a b = .ok (r, k1, k2)) (j : List Nat) (hj : InRange r.vals.shape j)
+    (hm : MissingAt a (opLabels a r) (opIdx a r j) ∨ MissingAt b (opLabels b r) (opIdx b r j)) :
+    r.vals.get j = .nan :=
+  (operation_missing_is_nan (opX o) ((opX_nanAbsorbing_iff o).mpr ho) a b r k1 k2 ha hb hca hcb h j hj).1 hm
+
+/-- THE HYPOTHESIS IS NEEDED (K01, end to end): in `a ** b`, a cell whose coordinate is missing from `b` only is NaN exactly
+when `a`'s cell there is not 1; one missing from `a` only is NaN exactly when `b`'s cell is not 0 -/
+theorem operation_pow_missing_not_nan (a b r : DimArray XVal) (k1 k2 : Kind)
+    (ha : AlignInput a) (hb : AlignInput b)
+    (hca : ∀ d ∈ a.dims, ',' ∉ d.toList) (hcb : ∀ d ∈ b.dims, ',' ∉ d.toList)
+    (h : operation XVal.nan XVal.pow a b = .ok (r, k1, k2)) (j : List Nat) (hj : InRange r.vals.shape j) :
+    (¬ MissingAt a (opLabels a r) (opIdx a r j) → MissingAt b (opLabels b r) (opIdx b r j) →
+      (r.vals.get j = .nan ↔ cellAt a (opLabels a r) (opIdx a r j) ≠ .fin 1)) ∧
+    (MissingAt a (opLabels a r) (opIdx a r j) → ¬ MissingAt b (opLabels b r) (opIdx b r j) →
+      (r.vals.get j = .nan ↔ cellAt b (opLabels b r) (opIdx b r j) ≠ .fin 0)) := by
+  obtain ⟨_, h10, h01, _⟩ := operation_cell_spec XVal.pow a b r k1 k2 ha hb hca hcb h j hj
+  exact ⟨fun h1 h2 => by rw [h01 h1 h2]; exact pow_nan_right_iff _,
+         fun h1 h2 => by rw [h10 h1 h2]; exact pow_nan_left_iff _⟩
+
+/-- the hypotheses are satisfiable: `+` is NaN-absorbing and not trivial (2 + inf = inf, inf + -inf = NaN) -/
+example : NanAbsorbing XVal.add ∧ XVal.add (.fin 2) .pinf = .pinf ∧ XVal.add .pinf .ninf = .nan :=
+  ⟨add_nanAbsorbing, rfl, rfl⟩
 
 end DimModel
